@@ -117,6 +117,14 @@ def generate(seed: int, tier: str) -> dict:
     orr = st["ops"]
     n_ops = orr.randint(3, 5)
     ops = [{"do": gen_request(orr, world)} for _ in range(n_ops)]
+    for key in ("self_cycle", "two_cycle"):
+        # (a world with a known circle is asked for it, most of the time)
+        cyc = world.get(key)
+        if cyc and chance(orr, 0.7):
+            unit = next(v["unit"] for v in world["variables"] if v["name"] == cyc[0])
+            per = {"month": f"2018-{(cyc[2] + 1) if key == 'two_cycle' else pick(orr, [2, 3, 4]):02d}", "year": "2019", "day": "2018-03-01"}.get(unit)
+            if per:
+                ops[orr.randrange(len(ops))] = {"do": ["calculate", cyc[0], per]}
     fr = st["faults"]
     # stack: the interpreter's stack runs out (RecursionError) at every depth below the
     # request, one Python frame at a time - what a deep dependency chain meets in production
